@@ -399,13 +399,27 @@ def private_build(ctx, flavour):
     import shutil, time
     dst = ctx.path("bin-" + flavour)
     os.makedirs(dst, exist_ok=True)
-    for attempt in range(4):
+    last = None
+    for attempt in range(10):
         try:
             shutil.copy2(os.path.join(vlib.build(flavour), "cproc-qbe"), os.path.join(dst, "cproc-qbe"))
             return dst
-        except (OSError, vlib.MachineryError):
-            time.sleep(3)
-    raise vlib.MachineryError("cannot obtain a %s build of cproc-qbe" % flavour)
+        except (OSError, vlib.MachineryError) as ex:      # evicted by a concurrent check of another tree: retry
+            last = ex
+            time.sleep(2 + 3 * (os.getpid() % 3) + attempt)
+    raise vlib.MachineryError("cannot obtain a %s build of cproc-qbe: %s" % (flavour, str(last)[-1500:]))
+
+
+def cfg_for(ctx, name):
+    """C07_DEVIATIONS=off: the same configuration with every named deviation switched off, i.e. what the check
+    demands once the defects of known_findings.d/C07.json are repaired in /repo."""
+    if os.environ.get("C07_DEVIATIONS", "") != "off":
+        return name
+    text = open(os.path.join(vlib.SPEC, name)).read()
+    text = re.sub(r"DevOn = \{[^}]*\}", "DevOn = {}", text)
+    out = ctx.path(name)
+    open(out, "w").write(text)
+    return out
 
 
 def case_key(c):
@@ -413,6 +427,7 @@ def case_key(c):
 
 
 def emit_cases(ctx, cfg, must_pass=True, **kw):
+    cfg = cfg_for(ctx, cfg)
     r = ctx.tlc_must_pass("Init", cfg, **kw) if must_pass else ctx.tlc("Init", cfg, **kw)
     if not must_pass and r.rc != 0:
         raise vlib.MachineryError("model Init/%s rejected (rc=%d):\n%s" % (cfg, r.rc, r.out[-5000:]))
